@@ -37,7 +37,17 @@ HAND = [
                      "Request": {"type": "object", "properties": {"headers": {"$ref": "#/definitions/Headers", "default": {"Content-Type": "text/plain", "retries": 3, "X-Trace": "on"}}}}}},
 ]
 
-def documents():
+def file_documents():
+    """documents kept under /verif/corpus (inputs on which some check once missed a change: unusual but legitimate schemas)"""
+    out = []
+    d = os.path.join(VERIF, "corpus")
+    for f in sorted(os.listdir(d)) if os.path.isdir(d) else []:
+        if f.endswith(".json"):
+            try: out.append(("file:" + f[:-5], json.load(open(os.path.join(d, f)))))
+            except Exception: pass
+    return out
+
+def documents(files=True):
     """[(id, document, settings)] — deduplicated by JSON text"""
     out = []; seen = set()
     p = os.path.join(VERIF, "KNOWN_FINDINGS.json")
@@ -50,7 +60,26 @@ def documents():
     for i, d in enumerate(HAND):
         t = json.dumps([d, {}], sort_keys=True)
         if t not in seen: seen.add(t); out.append(("hand:%d" % i, d, {}))
+    for cid, d in (file_documents() if files else []):
+        t = json.dumps([d, {}], sort_keys=True)
+        if t not in seen and len(t) < 200000: seen.add(t); out.append((cid, d, {}))
     return out
+
+_ANNOT = {"$ref", "title", "description", "$comment", "default", "examples", "definitions", "$defs", "$id", "$schema", "readOnly", "writeOnly", "deprecated"}
+
+def ref_with_siblings(doc):
+    """a `$ref` next to validation keywords somewhere in the document: draft-07 ignores the siblings, typify merges them; such
+    documents are outside every fragment that is judged by the draft-07 validator"""
+    def go(s, inside_value=False):
+        if isinstance(s, list): return any(go(x) for x in s)
+        if not isinstance(s, dict): return False
+        if "$ref" in s and isinstance(s["$ref"], str) and (set(s) - _ANNOT): return True
+        return any(go(v) for k, v in s.items() if k not in ("default", "enum", "const", "examples"))
+    return go(doc)
+
+def oracle_documents():
+    """the hand-written and file documents that the draft-07 validator and typify read the same way"""
+    return [(i, d, s) for i, d, s in documents() if i.startswith(("hand:", "file:")) and not ref_with_siblings(d)]
 
 if __name__ == "__main__":
     for i, d, s in documents(): print(i, len(json.dumps(d)))
